@@ -40,6 +40,33 @@ def g711_kernels(ctx, prog):
         extra = [f.s(n) for n in f.walk() if n['k'] == 'ArraySubscriptExpr' and f.s(n['kids'][0]) in ('ulaw_encode', 'alaw_encode', 'ulaw_decode', 'alaw_decode')
                  and not any(f.s(n) in r for r in req)]
         ctx.ob('G711-KERNEL', name, not miss and not extra, f.loc(f.body), 'index expressions as documented' if not miss and not extra else 'missing %s; unexpected %s' % (miss, extra), None)
+        # encoders: G.711 codes carry the sign in bit 7 (set = positive); every store made for a negative input clears it with `0x7F &`,
+        # every store for a non-negative input leaves the table code as it is
+        if name.endswith(('2alaw_array', '2ulaw_array')):
+            from engine.util import assigned_lvalues as _al
+            k_ = 0
+            for lv, a, r in _al(f):
+                if not lv.startswith('buffer[') or r is None:
+                    continue
+                k_ += 1
+                neg = None
+                cur = a
+                for anc in f.ancestors(a):
+                    if anc['k'] == 'IfStmt':
+                        cs = f.s(anc['cond']).replace(' ', '')
+                        in_then = anc.get('then') is not None and (f.within(cur, anc['then']) or cur is f.N[anc['then']])
+                        if '>=0' in cs:
+                            neg = not in_then
+                        elif '==INT_MIN' in cs or '==-2147483648' in cs or '(-2147483647-1)' in cs:
+                            neg = True if in_then else neg
+                        if neg is not None:
+                            break
+                rs = f.s(f.unwrap(r)).replace(' ', '')
+                masked = rs.startswith('(127&') or rs.endswith('&127)')
+                if neg is None:
+                    continue
+                ctx.ob('G711-KERNEL', '%s:sign#%d' % (name, k_), masked == neg, f.loc(a), 'store for a %s input is %s' % ('negative' if neg else 'non-negative', 'masked with 0x7F' if masked else 'not masked') +
+                       ('' if masked == neg else ': the sign bit of the code is wrong — the sample is written with the opposite sign'), None)
 
 
 
